@@ -245,7 +245,34 @@ const JUNK: &[&str] = &[
     ".zl = [to_string(.a) ?? \"d\", \"e\"]",
 ];
 
+/// composed programs: a block (or if / closure) earlier in the program, then USED values built from
+/// calls, literals and operations at several nesting levels — nothing in them may be flagged
+const COMPOSED: &[&str] = &[
+    "{ .a1 = 1; .b1 = 2 }\n.y = [downcase(\"A\"), 5]\n.y",
+    "{ .a1 = 1 }\n.y = [downcase(\"A\"), 5, upcase(\"b\")]\n.a",
+    "if .a == 1 { .t = 1 } else { .t = 2 }\n.y = [to_string(.a) ?? \"x\", 7]\n.y",
+    "{ { .deep = 1; 2 }; .b1 = 2 }\nx = [length(\"ab\"), {\"k\": 1}, 3]\n.out = x",
+    "for_each([1]) -> |_i, _v| { .w = 1 }\n.y = [upcase(\"a\"), \"lit\"]\n.y",
+    "x = { .q1 = 1; 5 }\n.y = {\"a\": downcase(\"Q\"), \"b\": 6}\n.y",
+    "{ .a1 = 1; .b1 = 2 }\n.z = ({ upcase(\"q\"); to_int(.s) } ?? 3)\n.z",
+    "{ .a1 = 1 }\n{ .b1 = [downcase(\"A\"), 5]; .c1 = 3 }\n.b1",
+    "if true { { .n1 = 1; 2 } }\n.y = [abs(-1), -1, !true]\n.y",
+    ".y = [downcase(\"A\"), 5]\n{ .a1 = 1; .b1 = 2 }\n.v = [upcase(\"c\"), 6]\n.v",
+    "{ .a1 = 1; .b1 = 2 }\n.y = push([downcase(\"A\")], 5)\n.y",
+    "{ .a1 = 1; .b1 = 2 }\n.y = if .a == 1 { [upcase(\"x\"), 1] } else { [2] }\n.y",
+];
+
 pub fn generate(sink: &mut Sink, rng: &mut Rng, n: u64) {
+    for src in COMPOSED {
+        if vrlrun::compile(src).is_err() {
+            sink.count("c34:composed_rejected");
+            continue;
+        }
+        for ev in ["{ k:61 i:1 k:73 b:31 }", "{ k:61 i:2 k:73 b:78 }"] {
+            sink.emit("o.c34", &[hex(src.as_bytes()), ev.to_string(), "{ }".to_string()]);
+            sink.count("c34:composed");
+        }
+    }
     let mut accepted = 0u64;
     let mut tried = 0u64;
     while accepted < n && tried < n * 30 {
